@@ -76,6 +76,7 @@ class Observer:
                                           for cf in extra]) for i in ins]
             res = self.I.run(pj, ins)
         self.rwcheck(p, att, pj, pj2, hist)
+        self.sidecheck(p, att, pj, ins, res, hist)
         res2 = self.I.run(pj2, ins)
         c["pairs-executed"] = c.get("pairs-executed", 0) + 1
         nontrivial = False
@@ -108,7 +109,8 @@ class Observer:
     MODELLED = {"insert_pass", "reorder_stmts", "cut_loop", "join_loops", "specialize",
                 "eliminate_dead_code", "remove_loop", "add_loop", "fission", "fuse",
                 "shift_loop", "unroll_loop", "divide_loop", "reorder_loops", "mult_loops", "lift_scope",
-                "lift_alloc", "sink_alloc", "delete_buffer", "delete_pass", "expand_dim", "bind_expr"}
+                "lift_alloc", "sink_alloc", "delete_buffer", "delete_pass", "expand_dim", "bind_expr",
+                "divide_dim", "mult_dim", "rearrange_dim", "resize_dim", "unroll_buffer"}
 
     def rwcheck(self, p, att, pj, pj2, hist):
         """correspondence A: the real output is the model rewrite (lean/ExoModel/Rewrite.lean)"""
@@ -124,6 +126,14 @@ class Observer:
             k = a.get("n", 1)
         elif op == "bind_expr":
             path = [st for st in path if st[0] in ("body", "orelse")]
+        elif op in ("divide_dim", "resize_dim", "unroll_buffer"):
+            if op == "resize_dim" and a.get("fold"):
+                return  # no storage model for the folding variant (search only)
+            k = a["dim"]
+        elif op == "mult_dim":
+            k = 16 * a["hi"] + a["lo"]
+        elif op == "rearrange_dim":
+            k = sum(q * 16 ** i for i, q in enumerate(a["perm"]))
         elif op == "fission":
             if a.get("n_lifts", 1) != 1:
                 return
@@ -148,6 +158,43 @@ class Observer:
                                         "program": self.rec["name"], "src": self.src,
                                         "before": str(p), "after_json_body": None})
 
+    def sidecheck(self, p, att, pj, ins, res, hist):
+        """correspondence B for Check_ReorderStmts: the real check accepted ⇒ the SEMANTIC side condition of
+        `Exo.C01S.reorder_stmts_in_context` (Fp.commuteAt at every dynamic visit of the pair) holds on the sampled
+        valid inputs.  Exo's Commutes is conservative (write/write and read/write overlap rejected), so this cannot
+        fire on a tree whose check is right."""
+        if att["op"] != "reorder_stmts":
+            return
+        from common import LeanDriver
+        c = self.rec["counts"]
+        good = [i for i, r in zip(ins, res) if "ok" in r]
+        if not good:
+            return
+        if getattr(self, "D2", None) is None:
+            self.D2 = LeanDriver("Drivers/C01Storage.lean")
+        out = json.loads(self.D2.ask(json.dumps({"op": "commute", "proc": pj, "path": att["path"], "inputs": good},
+                                                separators=(",", ":"))))
+        if "bad" in out:
+            c["sidecheck-bad"] = c.get("sidecheck-bad", 0) + 1
+            return
+        for i, r in zip(good, out.get("results", [])):
+            if "visits" not in r:
+                continue
+            c["sidecheck:commute-visits"] = c.get("sidecheck:commute-visits", 0) + r["visits"]
+            if not r.get("nodefs", True):
+                c["sidecheck:pair-with-definition(not covered by the theorem)"] = c.get("sidecheck:pair-with-definition(not covered by the theorem)", 0) + 1
+                continue
+            if r["commuting"] < r["visits"]:
+                self.rec["records"].append({
+                    "kind": "side-condition", "key": "reorder_stmts:commute-side-condition-fails",
+                    "what": f"reorder_stmts accepted, but the two statements do not commute (Fp.commuteAt) in "
+                            f"{r['visits'] - r['commuting']} of {r['visits']} dynamic visits on a valid input",
+                    "att": att, "hist": hist, "program": self.rec["name"], "src": self.src,
+                    "before": str(p), "input": i})
+                break
+
     def finish(self):
+        if getattr(self, "D2", None) is not None:
+            self.D2.close()
         if self.I:
             self.I.close()
